@@ -7,7 +7,12 @@ use solana_program_pack::Pack;
 use solana_pubkey::Pubkey;
 use spl_token_interface::state as ref_state;
 use star_frame::{
-    account_set::{AccountSetDecode, AccountSetValidate},
+    account_set::{
+        modifiers::{CanInitAccount, Mut, Signer},
+        AccountSetDecode, AccountSetValidate,
+    },
+    pinocchio::account_info::AccountInfo,
+    program::system::System,
     context::Context,
     data_types::KeyFor,
     program::StarFrameProgram,
@@ -15,7 +20,10 @@ use star_frame::{
 use star_frame_spl::{
     associated_token::AssociatedToken,
     token::{
-        state::{FreezeAuthority, MintAccount, TokenAccount, ValidateMint, ValidateToken},
+        state::{
+            FreezeAuthority, InitMint, InitToken, MintAccount, MintAccountData, TokenAccount, TokenAccountData, ValidateMint,
+            ValidateToken,
+        },
         Token,
     },
 };
@@ -95,46 +103,6 @@ impl TokenFields {
     }
 }
 
-/// The framework's view of a mint image: `validate_accounts` (owner, length, checked cast,
-/// initialized) then the fields through `data()`.
-fn fw_mint(owner: &Pubkey, image: &[u8]) -> Result<MintFields, String> {
-    let key = Pubkey::new_from_array([3; 32]);
-    let world = World::new(&[AcctSpec::new(key, *owner).data(image.to_vec())]);
-    let mut ctx = Context::new(&PROGRAM_ID);
-    let mut accs = world.infos();
-    let mut set = MintAccount::decode_accounts(&mut accs, (), &mut ctx).map_err(err_class)?;
-    set.validate_accounts((), &mut ctx).map_err(err_class)?;
-    let d = set.data().map_err(err_class)?;
-    Ok(MintFields {
-        ma: d.mint_authority.into_option(),
-        supply: { d.supply },
-        dec: d.decimals,
-        init: d.is_initialized,
-        fa: d.freeze_authority.into_option(),
-    })
-}
-
-fn fw_token(owner: &Pubkey, image: &[u8]) -> Result<TokenFields, String> {
-    let key = Pubkey::new_from_array([3; 32]);
-    let world = World::new(&[AcctSpec::new(key, *owner).data(image.to_vec())]);
-    let mut ctx = Context::new(&PROGRAM_ID);
-    let mut accs = world.infos();
-    let mut set = TokenAccount::decode_accounts(&mut accs, (), &mut ctx).map_err(err_class)?;
-    set.validate_accounts((), &mut ctx).map_err(err_class)?;
-    let d = set.data().map_err(err_class)?;
-    let mint: KeyFor<MintAccount> = { d.mint };
-    Ok(TokenFields {
-        mint: *mint.pubkey(),
-        owner: { d.owner },
-        amount: { d.amount },
-        delegate: d.delegate.into_option(),
-        state: d.state as u8,
-        native: d.is_native.into_option(),
-        delegated: { d.delegated_amount },
-        close: d.close_authority.into_option(),
-    })
-}
-
 fn p_any_key(s: &str) -> Option<Option<Pubkey>> {
     if s == "any" {
         Some(None)
@@ -142,99 +110,11 @@ fn p_any_key(s: &str) -> Option<Option<Pubkey>> {
         p_key(s).map(Some)
     }
 }
-
-/// `vmint`: the `validate_mint` validation id (`validate()?; validate_mint(arg)`).
-pub fn exec_vmint(owner: &str, image: &str, d: &str, au: &str, fr: &str) -> Exec {
-    let (Some(owner), Some(image)) = (p_key(owner), unhex(image)) else { return Exec::bad() };
-    let dec: Option<u8> = if d == "any" {
-        None
-    } else if !d.is_empty() && d.bytes().all(|c| c.is_ascii_digit()) {
-        match d.parse::<u8>() {
-            Ok(v) => Some(v),
-            Err(_) => return Exec::bad(),
-        }
-    } else {
-        return Exec::bad();
-    };
-    let Some(auth) = p_any_key(au) else { return Exec::bad() };
-    #[derive(Clone, Copy)]
-    enum Fr {
-        Any,
-        None,
-        Some(Pubkey),
+fn p_u8(s: &str) -> Option<u8> {
+    if s.is_empty() || !s.bytes().all(|c| c.is_ascii_digit()) {
+        return None;
     }
-    let fr = match fr {
-        "any" => Fr::Any,
-        "none" => Fr::None,
-        k => match p_key(k) {
-            Some(k) => Fr::Some(k),
-            None => return Exec::bad(),
-        },
-    };
-    let run = || -> Result<(), String> {
-        let key = Pubkey::new_from_array([3; 32]);
-        let world = World::new(&[AcctSpec::new(key, owner).data(image.clone())]);
-        let mut ctx = Context::new(&PROGRAM_ID);
-        let mut accs = world.infos();
-        let mut set = MintAccount::decode_accounts(&mut accs, (), &mut ctx).map_err(err_class)?;
-        let arg = ValidateMint {
-            decimals: dec,
-            authority: auth.as_ref(),
-            freeze_authority: match &fr {
-                Fr::Any => FreezeAuthority::Any,
-                Fr::None => FreezeAuthority::None,
-                Fr::Some(k) => FreezeAuthority::Some(k),
-            },
-        };
-        set.validate_accounts(arg, &mut ctx).map_err(err_class)
-    };
-    let fw = run();
-    let answer = match &fw {
-        Ok(()) => "ok".to_string(),
-        Err(e) => e.clone(),
-    };
-    let mut bumps = vec![
-        "validate:mint".to_string(),
-        format!("vmint:fw:{answer}"),
-        format!("vmint:arg:decimals:{}", if dec.is_some() { "some" } else { "any" }),
-        format!("vmint:arg:authority:{}", if auth.is_some() { "some" } else { "any" }),
-        format!("vmint:arg:freeze:{}", match fr { Fr::Any => "any", Fr::None => "none", Fr::Some(_) => "some" }),
-    ];
-    let mut fails = vec![];
-    let mut nontrivial = false;
-    if owner == Token::ID {
-        if let Ok(m) = ref_state::Mint::unpack(&image) {
-            nontrivial = true;
-            let (ma, fa) = (copt_key(m.mint_authority), copt_key(m.freeze_authority));
-            let want = dec.map_or(true, |d| m.decimals == d)
-                && auth.map_or(true, |a| ma == Some(a))
-                && match fr {
-                    Fr::Any => true,
-                    Fr::None => fa.is_none(),
-                    Fr::Some(k) => fa == Some(k),
-                };
-            bumps.push(format!("vmint:ref-predicate:{want}"));
-            if stale_payload(&image, &[(0, 32), (46, 32)]) {
-                bumps.push("vmint:image-has-NONE-tag-over-stale-payload".into());
-            }
-            match (want, &fw) {
-                (true, Err(e)) => fails.push((
-                    "validate_mint_rejects_valid".into(),
-                    format!("the predicate holds on the reference-unpacked fields, validate_mint answers {e}"),
-                )),
-                (false, Ok(())) => fails.push((
-                    "validate_mint_accepts_invalid".into(),
-                    "the predicate fails on the reference-unpacked fields, validate_mint accepts".into(),
-                )),
-                (false, Err(e)) if e != "err:InvalidAccountData" => fails.push((
-                    "validate_mint_error_class".into(),
-                    format!("expected err:InvalidAccountData, got {e}"),
-                )),
-                _ => {}
-            }
-        }
-    }
-    Exec { answer, fails, nontrivial, bumps }
+    s.parse::<u8>().ok()
 }
 
 /// true if some COption cell (tag offset, payload length) has tag NONE and a non-zero payload
@@ -244,157 +124,442 @@ fn stale_payload(image: &[u8], cells: &[(usize, usize)]) -> bool {
     })
 }
 
-/// `vtoken`: the `validate_token` validation id.
-pub fn exec_vtoken(owner: &str, image: &str, mint: &str, own: &str) -> Exec {
-    let (Some(owner), Some(image)) = (p_key(owner), unhex(image)) else { return Exec::bad() };
-    let (Some(mint), Some(own)) = (p_any_key(mint), p_any_key(own)) else { return Exec::bad() };
-    let run = || -> Result<(), String> {
-        let key = Pubkey::new_from_array([3; 32]);
-        let world = World::new(&[AcctSpec::new(key, owner).data(image.clone())]);
-        let mut ctx = Context::new(&PROGRAM_ID);
-        let mut accs = world.infos();
-        let mut set = TokenAccount::decode_accounts(&mut accs, (), &mut ctx).map_err(err_class)?;
-        let arg = ValidateToken { mint: mint.map(KeyFor::new), owner: own };
-        set.validate_accounts(arg, &mut ctx).map_err(err_class)
+/// Runtime flags of the `AccountInfo` the image sits behind: `w<0|1>s<0|1>`.
+#[derive(Clone, Copy)]
+struct Flags {
+    w: bool,
+    s: bool,
+}
+fn p_flags(s: &str) -> Option<Flags> {
+    Some(match s {
+        "w0s0" => Flags { w: false, s: false },
+        "w0s1" => Flags { w: false, s: true },
+        "w1s0" => Flags { w: true, s: false },
+        "w1s1" => Flags { w: true, s: true },
+        _ => return None,
+    })
+}
+
+#[derive(Clone, Copy)]
+enum Fr {
+    Any,
+    None,
+    Some(Pubkey),
+}
+
+/// arguments of the paths that take some
+#[derive(Clone, Copy)]
+enum MintArg {
+    No,
+    Validate { dec: Option<u8>, auth: Option<Pubkey>, fr: Fr },
+    Init { dec: u8, auth: Pubkey, fr: Option<Pubkey> },
+}
+#[derive(Clone, Copy)]
+enum TokenArg {
+    No,
+    Validate { mint: Option<Pubkey>, owner: Option<Pubkey> },
+    Init { mint: Pubkey, owner: Pubkey },
+}
+
+enum Got<F> {
+    Fields(F),
+    Unit,
+    Init(bool),
+}
+
+type Funder = Mut<Signer<AccountInfo>>;
+
+fn validate_mint_arg<'a>(dec: Option<u8>, auth: &'a Option<Pubkey>, fr: &'a Fr) -> ValidateMint<'a> {
+    ValidateMint {
+        decimals: dec,
+        authority: auth.as_ref(),
+        freeze_authority: match fr {
+            Fr::Any => FreezeAuthority::Any,
+            Fr::None => FreezeAuthority::None,
+            Fr::Some(k) => FreezeAuthority::Some(k),
+        },
+    }
+}
+
+/// One access path of `MintAccount` on `image` behind an info with the given runtime flags.
+fn run_mint(path: &str, f: Flags, owner: &Pubkey, image: &[u8], arg: MintArg) -> Option<Result<Got<MintFields>, String>> {
+    let key = Pubkey::new_from_array([3; 32]);
+    let world = World::new(&[
+        AcctSpec::new(key, *owner).data(image.to_vec()).writable(f.w).signer(f.s),
+        AcctSpec::new(Pubkey::new_from_array([4; 32]), System::ID).signer(true).writable(true).lamports(1_000_000_000),
+    ]);
+    let mut ctx = Context::new(&PROGRAM_ID);
+    let mut accs = &world.infos()[..1];
+    let mut set = match MintAccount::decode_accounts(&mut accs, (), &mut ctx) {
+        Ok(s) => s,
+        Err(e) => return Some(Err(err_class(e))),
     };
-    let fw = run();
+    let fields = |d: &MintAccountData| MintFields {
+        ma: d.mint_authority.into_option(),
+        supply: { d.supply },
+        dec: d.decimals,
+        init: d.is_initialized,
+        fa: d.freeze_authority.into_option(),
+    };
+    let vm = validate_mint_arg;
+    Some(match (path, arg) {
+        ("unchecked", MintArg::No) => set.data_unchecked().map(|d| Got::Fields(fields(&d))).map_err(err_class),
+        ("data", MintArg::No) => set.data().map(|d| Got::Fields(fields(&d))).map_err(err_class),
+        ("validate", MintArg::No) => set.validate().map(|_| Got::Unit).map_err(err_class),
+        ("set", MintArg::No) => (|| {
+            set.validate_accounts((), &mut ctx).map_err(err_class)?;
+            let d = set.data().map_err(err_class)?;
+            Ok(Got::Fields(fields(&d)))
+        })(),
+        ("vset", MintArg::Validate { dec, auth, fr }) => {
+            set.validate_accounts(vm(dec, &auth, &fr), &mut ctx).map(|_| Got::Unit).map_err(err_class)
+        }
+        ("vdirect", MintArg::Validate { dec, auth, fr }) => {
+            set.validate_mint(vm(dec, &auth, &fr)).map(|_| Got::Unit).map_err(err_class)
+        }
+        ("init", MintArg::Init { dec, auth, fr }) => (|| {
+            let mut faccs = &world.infos()[1..2];
+            let funder = Funder::decode_accounts(&mut faccs, (), &mut ctx).map_err(err_class)?;
+            let init = InitMint { decimals: dec, mint_authority: &auth, freeze_authority: fr.as_ref() };
+            set.init_account::<true>((init, &funder), None, &ctx).map(Got::Init).map_err(err_class)
+        })(),
+        _ => return None,
+    })
+}
+
+fn run_token(path: &str, f: Flags, owner: &Pubkey, image: &[u8], arg: TokenArg) -> Option<Result<Got<TokenFields>, String>> {
+    let key = Pubkey::new_from_array([3; 32]);
+    let mint_key = match arg {
+        TokenArg::Init { mint, .. } => mint,
+        _ => Pubkey::new_from_array([6; 32]),
+    };
+    let world = World::new(&[
+        AcctSpec::new(key, *owner).data(image.to_vec()).writable(f.w).signer(f.s),
+        AcctSpec::new(Pubkey::new_from_array([4; 32]), System::ID).signer(true).writable(true).lamports(1_000_000_000),
+        AcctSpec::new(mint_key, Token::ID),
+    ]);
+    let mut ctx = Context::new(&PROGRAM_ID);
+    let mut accs = &world.infos()[..1];
+    let mut set = match TokenAccount::decode_accounts(&mut accs, (), &mut ctx) {
+        Ok(s) => s,
+        Err(e) => return Some(Err(err_class(e))),
+    };
+    let fields = |d: &TokenAccountData| {
+        let mint: KeyFor<MintAccount> = { d.mint };
+        TokenFields {
+            mint: *mint.pubkey(),
+            owner: { d.owner },
+            amount: { d.amount },
+            delegate: d.delegate.into_option(),
+            state: d.state as u8,
+            native: d.is_native.into_option(),
+            delegated: { d.delegated_amount },
+            close: d.close_authority.into_option(),
+        }
+    };
+    Some(match (path, arg) {
+        ("unchecked", TokenArg::No) => set.data_unchecked().map(|d| Got::Fields(fields(&d))).map_err(err_class),
+        ("data", TokenArg::No) => set.data().map(|d| Got::Fields(fields(&d))).map_err(err_class),
+        ("validate", TokenArg::No) => set.validate().map(|_| Got::Unit).map_err(err_class),
+        ("set", TokenArg::No) => (|| {
+            set.validate_accounts((), &mut ctx).map_err(err_class)?;
+            let d = set.data().map_err(err_class)?;
+            Ok(Got::Fields(fields(&d)))
+        })(),
+        ("vset", TokenArg::Validate { mint, owner: own }) => set
+            .validate_accounts(ValidateToken { mint: mint.map(KeyFor::new), owner: own }, &mut ctx)
+            .map(|_| Got::Unit)
+            .map_err(err_class),
+        ("vdirect", TokenArg::Validate { mint, owner: own }) => {
+            set.validate_token(ValidateToken { mint: mint.map(KeyFor::new), owner: own }).map(|_| Got::Unit).map_err(err_class)
+        }
+        ("init", TokenArg::Init { owner: own, .. }) => (|| {
+            let mut faccs = &world.infos()[1..2];
+            let funder = Funder::decode_accounts(&mut faccs, (), &mut ctx).map_err(err_class)?;
+            let mint_info = world.infos()[2];
+            let init = InitToken { owner: own, mint: &mint_info };
+            set.init_account::<true>((init, &funder), None, &ctx).map(Got::Init).map_err(err_class)
+        })(),
+        _ => return None,
+    })
+}
+
+fn want_mint(m: &ref_state::Mint) -> MintFields {
+    MintFields {
+        ma: copt_key(m.mint_authority),
+        supply: m.supply,
+        dec: m.decimals,
+        init: m.is_initialized,
+        fa: copt_key(m.freeze_authority),
+    }
+}
+fn want_token(a: &ref_state::Account) -> TokenFields {
+    TokenFields {
+        mint: a.mint,
+        owner: a.owner,
+        amount: a.amount,
+        delegate: copt_key(a.delegate),
+        state: a.state as u8,
+        native: match a.is_native {
+            COption::Some(n) => Some(n),
+            COption::None => None,
+        },
+        delegated: a.delegated_amount,
+        close: copt_key(a.close_authority),
+    }
+}
+
+/// failure-class stem: the historical names for the account-set paths, `<kind>_<path>` otherwise
+fn stem(kind: &str, path: &str) -> String {
+    match path {
+        "set" => format!("{kind}_view"),
+        "vset" => format!("validate_{kind}"),
+        "vdirect" => format!("validate_{kind}_direct"),
+        "init" => format!("init_{kind}_if_needed"),
+        p => format!("{kind}_{p}"),
+    }
+}
+
+/// `view mint <path> <flags> <owner> <image> [args]`
+fn view_mint(path: &str, flags: &str, owner: &str, image: &str, args: &[&str]) -> Exec {
+    let (Some(f), Some(owner), Some(image)) = (p_flags(flags), p_key(owner), unhex(image)) else { return Exec::bad() };
+    let arg = match (path, args) {
+        ("unchecked" | "data" | "validate" | "set", []) => MintArg::No,
+        ("vset" | "vdirect", [d, au, fr]) => {
+            let dec = if *d == "any" {
+                None
+            } else {
+                match p_u8(d) {
+                    Some(v) => Some(v),
+                    None => return Exec::bad(),
+                }
+            };
+            let Some(auth) = p_any_key(au) else { return Exec::bad() };
+            let fr = match *fr {
+                "any" => Fr::Any,
+                "none" => Fr::None,
+                k => match p_key(k) {
+                    Some(k) => Fr::Some(k),
+                    None => return Exec::bad(),
+                },
+            };
+            MintArg::Validate { dec, auth, fr }
+        }
+        ("init", [d, au, fr]) => {
+            let (Some(dec), Some(auth)) = (p_u8(d), p_key(au)) else { return Exec::bad() };
+            let fr = if *fr == "none" {
+                None
+            } else {
+                match p_key(fr) {
+                    Some(k) => Some(k),
+                    None => return Exec::bad(),
+                }
+            };
+            if owner != Token::ID {
+                return Exec::bad(); // the create path would run: not an access path of an existing image
+            }
+            MintArg::Init { dec, auth, fr }
+        }
+        _ => return Exec::bad(),
+    };
+    let Some(fw) = run_mint(path, f, &owner, &image, arg) else { return Exec::bad() };
     let answer = match &fw {
-        Ok(()) => "ok".to_string(),
+        Ok(Got::Fields(x)) => x.show(),
+        Ok(Got::Unit) => "ok".to_string(),
+        Ok(Got::Init(b)) => format!("ok {b}"),
         Err(e) => e.clone(),
     };
     let mut bumps = vec![
-        "validate:token".to_string(),
-        format!("vtoken:fw:{answer}"),
-        format!("vtoken:arg:mint:{}", if mint.is_some() { "some" } else { "any" }),
-        format!("vtoken:arg:owner:{}", if own.is_some() { "some" } else { "any" }),
+        "image:mint".to_string(),
+        format!("view:mint:{path}"),
+        format!("view:flags:{flags}"),
+        format!("image:mint:len{}", if image.len() == 82 { "=82" } else { "!=82" }),
+        format!("mint:{path}:fw:{}", if fw.is_ok() { "accept" } else { answer.as_str() }),
     ];
     let mut fails = vec![];
-    let mut nontrivial = false;
-    if owner == Token::ID {
-        if let Ok(a) = ref_state::Account::unpack(&image) {
-            nontrivial = true;
-            let want: Result<(), &str> = if mint.map_or(false, |m| a.mint != m) {
-                Err("err:InvalidAccountData")
-            } else if own.map_or(false, |o| a.owner != o) {
-                Err("err:IncorrectAuthority")
-            } else {
-                Ok(())
-            };
-            bumps.push(format!("vtoken:ref-predicate:{}", want.is_ok()));
-            if stale_payload(&image, &[(72, 32), (109, 8), (129, 32)]) {
-                bumps.push("vtoken:image-has-NONE-tag-over-stale-payload".into());
-            }
-            match (want, &fw) {
-                (Ok(()), Err(e)) => fails.push((
-                    "validate_token_rejects_valid".into(),
-                    format!("the predicate holds on the reference-unpacked fields, validate_token answers {e}"),
-                )),
-                (Err(_), Ok(())) => fails.push((
-                    "validate_token_accepts_invalid".into(),
-                    "the predicate fails on the reference-unpacked fields, validate_token accepts".into(),
-                )),
-                (Err(w), Err(e)) if w != e => {
-                    fails.push(("validate_token_error_class".into(), format!("expected {w}, got {e}")))
-                }
-                _ => {}
-            }
-        }
-    }
-    Exec { answer, fails, nontrivial, bumps }
-}
-
-pub fn exec_mint(owner: &str, image: &str) -> Exec {
-    let (Some(owner), Some(image)) = (p_key(owner), unhex(image)) else { return Exec::bad() };
-    let fw = fw_mint(&owner, &image);
-    let mut bumps = vec!["image:mint".to_string(), format!("image:mint:len{}", if image.len() == 82 { "=82" } else { "!=82" })];
-    let mut fails = vec![];
-    let answer = match &fw {
-        Ok(f) => f.show(),
-        Err(e) => e.clone(),
-    };
-    bumps.push(format!("mint:fw:{}", if fw.is_ok() { "accept" } else { answer.as_str() }));
     let reference = ref_state::Mint::unpack(&image);
-    bumps.push(format!("mint:ref:{}", if reference.is_ok() { "accept".to_string() } else { format!("{:?}", reference.as_ref().err().unwrap()) }));
+    bumps.push(format!("mint:ref:{}", match &reference { Ok(_) => "accept".to_string(), Err(e) => format!("{e:?}") }));
     let mut nontrivial = reference.is_err() || fw.is_err();
-    if owner == Token::ID {
-        match (&reference, &fw) {
-            (Ok(m), Ok(f)) => {
-                let want = MintFields {
-                    ma: copt_key(m.mint_authority),
-                    supply: m.supply,
-                    dec: m.decimals,
-                    init: m.is_initialized,
-                    fa: copt_key(m.freeze_authority),
-                };
-                nontrivial |= want.ma.is_some() || want.fa.is_some();
-                if stale_payload(&image, &[(0, 32), (46, 32)]) {
-                    bumps.push("mint:NONE-tag-over-stale-payload".into());
+    let st = stem("mint", path);
+    if owner != Token::ID {
+        bumps.push("mint:foreign-owner".into());
+    } else if let Ok(m) = &reference {
+        let want = want_mint(m);
+        bumps.push(format!("mint:ref-accepts:writable={}", f.w));
+        if stale_payload(&image, &[(0, 32), (46, 32)]) {
+            bumps.push("mint:NONE-tag-over-stale-payload".into());
+        }
+        nontrivial |= want.ma.is_some() || want.fa.is_some() || f.w || f.s;
+        match arg {
+            MintArg::No => match &fw {
+                Ok(Got::Fields(x)) if x != &want => {
+                    fails.push((format!("{st}_fields"), format!("reference {} framework {}", want.show(), x.show())))
                 }
-                if &want != f {
-                    fails.push(("mint_view_fields".into(), format!("reference {} framework {}", want.show(), f.show())));
+                Err(e) => fails.push((
+                    format!("{st}_rejects_valid"),
+                    format!("the reference unpacker accepts the image, `{path}` behind a {flags} info answers {e}"),
+                )),
+                _ => {}
+            },
+            MintArg::Validate { .. } | MintArg::Init { .. } => {
+                let (dec, auth, fr) = match arg {
+                    MintArg::Validate { dec, auth, fr } => (dec, auth, fr),
+                    MintArg::Init { dec, auth, fr } => (Some(dec), Some(auth), fr.map_or(Fr::None, Fr::Some)),
+                    MintArg::No => unreachable!(),
+                };
+                let pred = dec.map_or(true, |d| want.dec == d)
+                    && auth.map_or(true, |a| want.ma == Some(a))
+                    && match fr {
+                        Fr::Any => true,
+                        Fr::None => want.fa.is_none(),
+                        Fr::Some(k) => want.fa == Some(k),
+                    };
+                bumps.push(format!("mint:{path}:ref-predicate:{pred}"));
+                match (pred, &fw) {
+                    (true, Err(e)) => fails.push((
+                        format!("{st}_rejects_valid"),
+                        format!("the predicate holds on the reference-unpacked fields, `{path}` behind a {flags} info answers {e}"),
+                    )),
+                    (true, Ok(Got::Init(true))) => fails.push((format!("{st}_reinitialises"), "init_if_needed reports a fresh initialisation of an existing account".into())),
+                    (false, Ok(_)) => fails.push((
+                        format!("{st}_accepts_invalid"),
+                        format!("the predicate fails on the reference-unpacked fields, `{path}` accepts"),
+                    )),
+                    (false, Err(e)) if e != "err:InvalidAccountData" => {
+                        fails.push((format!("{st}_error_class"), format!("expected err:InvalidAccountData, got {e}")))
+                    }
+                    _ => {}
                 }
             }
-            (Ok(_), Err(e)) => fails.push((
-                "mint_view_rejects_valid".into(),
-                format!("the reference unpacker accepts the image, the framework view answers {e}"),
-            )),
-            (Err(_), Ok(_)) => bumps.push("mint:fw-accepts-ref-rejects(not part of the property)".into()),
-            (Err(_), Err(_)) => {}
         }
-    } else {
-        bumps.push("mint:foreign-owner".into());
+    } else if fw.is_ok() {
+        bumps.push("mint:fw-accepts-ref-rejects(not part of the property)".into());
     }
     Exec { answer, fails, nontrivial, bumps }
 }
 
-pub fn exec_token(owner: &str, image: &str) -> Exec {
-    let (Some(owner), Some(image)) = (p_key(owner), unhex(image)) else { return Exec::bad() };
-    let fw = fw_token(&owner, &image);
-    let mut bumps = vec!["image:token".to_string(), format!("image:token:len{}", if image.len() == 165 { "=165" } else { "!=165" })];
-    let mut fails = vec![];
+/// `view token <path> <flags> <owner> <image> [args]`
+fn view_token(path: &str, flags: &str, owner: &str, image: &str, args: &[&str]) -> Exec {
+    let (Some(f), Some(owner), Some(image)) = (p_flags(flags), p_key(owner), unhex(image)) else { return Exec::bad() };
+    let arg = match (path, args) {
+        ("unchecked" | "data" | "validate" | "set", []) => TokenArg::No,
+        ("vset" | "vdirect", [m, o]) => {
+            let (Some(mint), Some(own)) = (p_any_key(m), p_any_key(o)) else { return Exec::bad() };
+            TokenArg::Validate { mint, owner: own }
+        }
+        ("init", [m, o]) => {
+            let (Some(mint), Some(own)) = (p_key(m), p_key(o)) else { return Exec::bad() };
+            if owner != Token::ID {
+                return Exec::bad();
+            }
+            TokenArg::Init { mint, owner: own }
+        }
+        _ => return Exec::bad(),
+    };
+    let Some(fw) = run_token(path, f, &owner, &image, arg) else { return Exec::bad() };
     let answer = match &fw {
-        Ok(f) => f.show(),
+        Ok(Got::Fields(x)) => x.show(),
+        Ok(Got::Unit) => "ok".to_string(),
+        Ok(Got::Init(b)) => format!("ok {b}"),
         Err(e) => e.clone(),
     };
-    bumps.push(format!("token:fw:{}", if fw.is_ok() { "accept" } else { answer.as_str() }));
+    let mut bumps = vec![
+        "image:token".to_string(),
+        format!("view:token:{path}"),
+        format!("view:flags:{flags}"),
+        format!("image:token:len{}", if image.len() == 165 { "=165" } else { "!=165" }),
+        format!("token:{path}:fw:{}", if fw.is_ok() { "accept" } else { answer.as_str() }),
+    ];
+    let mut fails = vec![];
     let reference = ref_state::Account::unpack(&image);
-    bumps.push(format!("token:ref:{}", if reference.is_ok() { "accept".to_string() } else { format!("{:?}", reference.as_ref().err().unwrap()) }));
+    bumps.push(format!("token:ref:{}", match &reference { Ok(_) => "accept".to_string(), Err(e) => format!("{e:?}") }));
     let mut nontrivial = reference.is_err() || fw.is_err();
-    if owner == Token::ID {
-        match (&reference, &fw) {
-            (Ok(a), Ok(f)) => {
-                let want = TokenFields {
-                    mint: a.mint,
-                    owner: a.owner,
-                    amount: a.amount,
-                    delegate: copt_key(a.delegate),
-                    state: a.state as u8,
-                    native: match a.is_native {
-                        COption::Some(n) => Some(n),
-                        COption::None => None,
-                    },
-                    delegated: a.delegated_amount,
-                    close: copt_key(a.close_authority),
-                };
-                nontrivial |= want.delegate.is_some() || want.native.is_some() || want.close.is_some();
-                if stale_payload(&image, &[(72, 32), (109, 8), (129, 32)]) {
-                    bumps.push("token:NONE-tag-over-stale-payload".into());
+    let st = stem("token", path);
+    if owner != Token::ID {
+        bumps.push("token:foreign-owner".into());
+    } else if let Ok(a) = &reference {
+        let want = want_token(a);
+        bumps.push(format!("token:ref-accepts:state={}:writable={}", want.state, f.w));
+        if stale_payload(&image, &[(72, 32), (109, 8), (129, 32)]) {
+            bumps.push("token:NONE-tag-over-stale-payload".into());
+        }
+        nontrivial |= want.delegate.is_some() || want.native.is_some() || want.close.is_some() || f.w || f.s || want.state == 2;
+        match arg {
+            TokenArg::No => match &fw {
+                Ok(Got::Fields(x)) if x != &want => {
+                    fails.push((format!("{st}_fields"), format!("reference {} framework {}", want.show(), x.show())))
                 }
-                if &want != f {
-                    fails.push(("token_view_fields".into(), format!("reference {} framework {}", want.show(), f.show())));
+                Err(e) => fails.push((
+                    format!("{st}_rejects_valid"),
+                    format!(
+                        "the reference unpacker accepts the image (state {}), `{path}` behind a {flags} info answers {e}",
+                        want.state
+                    ),
+                )),
+                _ => {}
+            },
+            TokenArg::Validate { .. } | TokenArg::Init { .. } => {
+                let (mint, own) = match arg {
+                    TokenArg::Validate { mint, owner } => (mint, owner),
+                    TokenArg::Init { mint, owner } => (Some(mint), Some(owner)),
+                    TokenArg::No => unreachable!(),
+                };
+                let pred: Result<(), &str> = if mint.map_or(false, |m| want.mint != m) {
+                    Err("err:InvalidAccountData")
+                } else if own.map_or(false, |o| want.owner != o) {
+                    Err("err:IncorrectAuthority")
+                } else {
+                    Ok(())
+                };
+                bumps.push(format!("token:{path}:ref-predicate:{}", pred.is_ok()));
+                match (pred, &fw) {
+                    (Ok(()), Err(e)) => fails.push((
+                        format!("{st}_rejects_valid"),
+                        format!(
+                            "the predicate holds on the reference-unpacked fields (state {}), `{path}` behind a {flags} info answers {e}",
+                            want.state
+                        ),
+                    )),
+                    (Ok(()), Ok(Got::Init(true))) => fails.push((format!("{st}_reinitialises"), "init_if_needed reports a fresh initialisation of an existing account".into())),
+                    (Err(_), Ok(_)) => fails.push((
+                        format!("{st}_accepts_invalid"),
+                        format!("the predicate fails on the reference-unpacked fields, `{path}` accepts"),
+                    )),
+                    (Err(w), Err(e)) if w != e => fails.push((format!("{st}_error_class"), format!("expected {w}, got {e}"))),
+                    _ => {}
                 }
             }
-            (Ok(_), Err(e)) => fails.push((
-                "token_view_rejects_valid".into(),
-                format!("the reference unpacker accepts the image, the framework view answers {e}"),
-            )),
-            (Err(_), Ok(_)) => bumps.push("token:fw-accepts-ref-rejects(not part of the property)".into()),
-            (Err(_), Err(_)) => {}
         }
-    } else {
-        bumps.push("token:foreign-owner".into());
+    } else if fw.is_ok() {
+        bumps.push("token:fw-accepts-ref-rejects(not part of the property)".into());
     }
     Exec { answer, fails, nontrivial, bumps }
+}
+
+/// `view <mint|token> <path> <flags> <owner> <image> [args]`: every access path of the zero-copy views
+/// (`data_unchecked`, `data`, `validate`, account set + `data`, `validate_accounts(Validate…)`, `validate_*`
+/// alone, `init_account::<IF_NEEDED>` on the existing account) behind an `AccountInfo` with the given runtime
+/// writable / signer flags. Oracle: the reference unpacker (fields / the same predicate on its fields).
+pub fn exec_view(rest: &[&str]) -> Exec {
+    match rest {
+        ["mint", path, flags, owner, image, args @ ..] => view_mint(path, flags, owner, image, args),
+        ["token", path, flags, owner, image, args @ ..] => view_token(path, flags, owner, image, args),
+        _ => Exec::bad(),
+    }
+}
+
+// the original ops: the account-set paths behind a read-only, non-signer info
+pub fn exec_mint(owner: &str, image: &str) -> Exec {
+    view_mint("set", "w0s0", owner, image, &[])
+}
+pub fn exec_token(owner: &str, image: &str) -> Exec {
+    view_token("set", "w0s0", owner, image, &[])
+}
+pub fn exec_vmint(owner: &str, image: &str, d: &str, au: &str, fr: &str) -> Exec {
+    view_mint("vset", "w0s0", owner, image, &[d, au, fr])
+}
+pub fn exec_vtoken(owner: &str, image: &str, mint: &str, own: &str) -> Exec {
+    view_token("vset", "w0s0", owner, image, &[mint, own])
 }
 
 /// Identify, by search over a candidate space, the `find_program_address` input that reproduces the
